@@ -18,7 +18,8 @@ pub struct LayoutCase {
   pub markers: Vec<Option<KeyCode>>,   // generator B: marker key of mapping i
   pub alphabet: Vec<KeyCode>,          // keys the history generator draws from (foreign keys included)
   pub layout_keys: Vec<KeyCode>,       // every key occurring anywhere in the layout
-  pub foreign: Vec<KeyCode>            // keys of the alphabet that occur nowhere in the layout
+  pub foreign: Vec<KeyCode>,           // keys of the alphabet that occur nowhere in the layout
+  pub wide: bool                       // histories may hold many keys at once (generator D)
 }
 
 pub fn verif_root() -> String {
@@ -43,7 +44,7 @@ pub fn trigger_and_output_keys(l: &Layout) -> Vec<KeyCode> {
 }
 
 const FOREIGN_ORDINARY: [KeyCode; 4] = [KP5, KPPLUS, SCROLLLOCK, INSERT];
-const FOREIGN_MODIFIER: [KeyCode; 4] = [RIGHTMETA, RIGHTCTRL, LEFTMETA, RIGHTALT];
+const FOREIGN_MODIFIER: [KeyCode; 8] = [RIGHTMETA, RIGHTCTRL, LEFTMETA, RIGHTALT, LEFTALT, LEFTCTRL, RIGHTSHIFT, LEFTSHIFT];
 
 pub fn make_case(layout: Layout, source: &str, markers: Vec<Option<KeyCode>>, rng: &mut Rng, max_alphabet: usize) -> LayoutCase {
   let all = layout_keys(&layout);
@@ -72,16 +73,20 @@ pub fn make_case(layout: Layout, source: &str, markers: Vec<Option<KeyCode>>, rn
     for k in chosen { set_insert(&mut trig, k); }
   }
   let mut foreign = Vec::new();
-  for k in FOREIGN_ORDINARY.iter() { if !all.contains(k) { foreign.push(*k); break; } }
-  for k in FOREIGN_MODIFIER.iter() { if !all.contains(k) { foreign.push(*k); break; } }
-  let mut alphabet = trig.clone();
+  if rng.chance(1, 4) { let k = any_key(rng); if !is_modifier(k) && !all.contains(&k) { foreign.push(k); } }
+  if foreign.is_empty() { for k in FOREIGN_ORDINARY.iter() { if !all.contains(k) { foreign.push(*k); break; } } }
+  { let off = rng.below(FOREIGN_MODIFIER.len()); for i in 0..FOREIGN_MODIFIER.len() { let k = FOREIGN_MODIFIER[(i + off) % FOREIGN_MODIFIER.len()]; if !all.contains(&k) { foreign.push(k); break; } } }
+  // marker keys (generator B) are pure outputs: keep only some of them in the history alphabet
+  let wide = source == "genD";
+  if wide { for _ in 0..10 { let k = any_key(rng); if !all.contains(&k) { set_insert(&mut foreign, k); } } }
+  let mut alphabet: Vec<KeyCode> = trig.iter().cloned().filter(|k| !markers.contains(&Some(*k)) || rng.chance(1, 4)).collect();
   for k in &foreign { set_insert(&mut alphabet, *k); }
   let id = hash_str(&format!("{:?}", layout.mappings));
   LayoutCase {
     has_absorbing: layout.mappings.iter().any(|m| !m.absorbing.is_empty()),
     has_norepeat: layout.mappings.iter().any(|m| no_repeat(m)),
     has_special: layout.mappings.iter().any(|m| matches!(m.repeat, Repeat::Special { .. })),
-    layout, id, source: source.to_string(), markers, alphabet, layout_keys: all, foreign
+    layout, id, source: source.to_string(), markers, alphabet, layout_keys: all, foreign, wide
   }
 }
 
@@ -137,16 +142,54 @@ pub struct GenParams {
   pub max_mappings: usize
 }
 
-const ORD: [KeyCode; 4] = [A, B, C, D];
-const LAYER: [KeyCode; 2] = [CAPSLOCK, TAB];
-const MODS: [KeyCode; 5] = [LEFTSHIFT, RIGHTSHIFT, LEFTCTRL, LEFTALT, RIGHTALT];
+// Per layout only a handful of keys are drawn (small alphabets reach deep states), but across layouts every
+// standard modifier, several non-modifier "layer" keys and a spread of ordinary keys occur.
+const ORD: [KeyCode; 18] = [A, B, C, D, J, K, SEMICOLON, K1, K0, SPACE, ENTER, F5, UP, KPENTER, MINUS, ESC, BACKSPACE, COMPOSE];
+const LAYER: [KeyCode; 5] = [CAPSLOCK, TAB, GRAVE, HENKAN, K102ND];
+const MODS: [KeyCode; 8] = [LEFTSHIFT, RIGHTSHIFT, LEFTCTRL, RIGHTCTRL, LEFTALT, RIGHTALT, LEFTMETA, RIGHTMETA];
 const MARKERS: [KeyCode; 12] = [F13, F14, F15, F16, F17, F18, F19, F20, F21, F22, F23, F24];
 const REPEAT_KEYS: [KeyCode; 4] = [KP1, KP2, KP3, KP4];
+
+lazy_static::lazy_static! {
+  static ref ALL_KEYS: Vec<KeyCode> = all_key_codes();
+  // keys whose code + 256 or + 512 is a key code too: (key, its aliases under 8-bit truncation)
+  static ref ALIAS_FAMILIES: Vec<Vec<KeyCode>> = {
+    let all = all_key_codes();
+    let mut v = vec![];
+    for k in &all {
+      let c = *k as i32;
+      if c >= 256 { continue; }
+      let fam: Vec<KeyCode> = all.iter().cloned().filter(|x| (*x as i32) % 256 == c).collect();
+      if fam.len() >= 2 { v.push(fam); }
+    }
+    // ... and in their low 7 bits (keys that look like one of the eight modifiers included)
+    for k in &all {
+      let c = *k as i32;
+      if c >= 128 { continue; }
+      let fam: Vec<KeyCode> = all.iter().cloned().filter(|x| (*x as i32) % 128 == c).collect();
+      if fam.len() >= 2 && (is_modifier(*k) || c % 7 == 0) { v.push(fam); }
+    }
+    for f in v.iter_mut() { f.retain(|k| !MARKERS.contains(k) && !REPEAT_KEYS.contains(k)); }
+    v.retain(|f| f.len() >= 2);
+    v
+  };
+}
+
+// any key code the enum knows, except the keys reserved as generator-B markers and as dedicated repeat keys
+pub fn any_key(rng: &mut Rng) -> KeyCode {
+  loop { let k = *rng.pick(&ALL_KEYS); if !MARKERS.contains(&k) && !REPEAT_KEYS.contains(&k) { return k; } }
+}
 
 fn gen_pool(rng: &mut Rng) -> Vec<KeyCode> {
   let mut pool: Vec<KeyCode> = Vec::new();
   let n_ord = rng.range(2, 4);
-  pool.extend_from_slice(&rng.sample(&ORD, n_ord));
+  match rng.below(10) {
+    // ordinary keys from the whole key-code space (media keys, vendor keys, codes above 255 and above 561)
+    0 | 1 => { for _ in 0..n_ord { let k = any_key(rng); if !is_modifier(k) { set_insert(&mut pool, k); } } if pool.is_empty() { pool.push(A); } },
+    // keys that coincide in their low 8 bits
+    2 => { for _ in 0..2 { let mut fam = rng.pick(&ALIAS_FAMILIES).clone(); rng.shuffle(&mut fam); for k in fam { if !is_modifier(k) && pool.len() < 5 { set_insert(&mut pool, k); } } } if pool.is_empty() { pool.push(A); } },
+    _ => pool.extend_from_slice(&rng.sample(&ORD, n_ord))
+  }
   let n_layer = rng.range(0, 2);
   pool.extend_from_slice(&rng.sample(&LAYER, n_layer));
   let n_mod = rng.range(1, 4);
@@ -168,7 +211,7 @@ fn gen_repeat(rng: &mut Rng, p: &GenParams, pool: &[KeyCode], idx: usize) -> Rep
       if !mods.is_empty() && rng.chance(3, 4) { keys.push(*rng.pick(&mods)); }
       else { keys.push(*rng.pick(pool)); }
     }
-    let rk = REPEAT_KEYS[idx % REPEAT_KEYS.len()];
+    let rk = if rng.chance(1, 3) { let k = any_key(rng); if is_modifier(k) { REPEAT_KEYS[idx % REPEAT_KEYS.len()] } else { k } } else { REPEAT_KEYS[idx % REPEAT_KEYS.len()] };
     if !keys.contains(&rk) { keys.push(rk); }
     // unique parameters per mapping so the request identifies the mapping
     Repeat::Special { keys, delay_ms: 100 + 10 * idx as i32, interval_ms: 20 + idx as i32 }
@@ -228,8 +271,8 @@ pub fn gen_b(rng: &mut Rng, p: &GenParams) -> (Layout, Vec<Option<KeyCode>>) {
 // Generator C: layouts shaped like the shipped ones
 pub fn gen_c(rng: &mut Rng, p: &GenParams) -> (Layout, Vec<Option<KeyCode>>) {
   let mut mappings: Vec<Mapping> = Vec::new();
-  let letters = [A, B, C, D, J, K];
-  let outs = [LEFT, RIGHT, UP, EQUAL, K1, SLASH, A, B, N];
+  let letters = [A, B, C, D, J, K, SEMICOLON, COMMA];
+  let outs = [LEFT, RIGHT, UP, EQUAL, K1, SLASH, A, B, N, PAGEDOWN, HOME];
   let mut idx = 0;
   // suppressed layer key(s) with chords
   let nl = rng.range(1, 2);
@@ -241,7 +284,7 @@ pub fn gen_c(rng: &mut Rng, p: &GenParams) -> (Layout, Vec<Option<KeyCode>>) {
       let x = *rng.pick(&letters);
       let y = *rng.pick(&outs);
       let mut to = vec![];
-      if rng.chance(1, 2) { to.push(*rng.pick(&[LEFTSHIFT, LEFTCTRL])); }
+      if rng.chance(1, 2) { to.push(*rng.pick(&[LEFTSHIFT, LEFTCTRL, RIGHTALT, LEFTMETA, RIGHTCTRL])); }
       to.push(y);
       let mut from = vec![*l, x];
       if rng.chance(1, 6) { from.insert(0, *rng.pick(&[LEFTSHIFT, RIGHTSHIFT])); }
@@ -275,7 +318,7 @@ pub fn gen_c(rng: &mut Rng, p: &GenParams) -> (Layout, Vec<Option<KeyCode>>) {
   // modifier remap with overlays
   if rng.chance(1, 2) {
     let g = GRAVE;
-    let md = *rng.pick(&[LEFTMETA, LEFTALT]);
+    let md = *rng.pick(&[LEFTMETA, LEFTALT, RIGHTCTRL, RIGHTMETA]);
     mappings.push(Mapping { from: vec![g], to: vec![md], ..Default::default() });
     let nov = rng.range(0, 2);
     for _ in 0..nov {
@@ -302,6 +345,29 @@ pub fn gen_c(rng: &mut Rng, p: &GenParams) -> (Layout, Vec<Option<KeyCode>>) {
   (Layout { mappings }, markers)
 }
 
+// Generator D: wide shapes - long outputs, long repeat chords, long triggers, more mappings
+pub fn gen_d(rng: &mut Rng, p: &GenParams) -> (Layout, Vec<Option<KeyCode>>) {
+  let mut pool = gen_pool(rng);
+  for _ in 0..rng.range(4, 14) { let k = if rng.chance(1, 2) { any_key(rng) } else { *rng.pick(&ORD) }; set_insert(&mut pool, k); }
+  let n = rng.range(1, 10);
+  let mut mappings = Vec::new();
+  for i in 0..n {
+    let fl = std::cmp::min(pool.len(), match rng.below(10) { 0..=3 => 1, 4..=6 => 2, 7..=8 => rng.range(3, 4), _ => rng.range(5, 6) });
+    let from = rng.sample(&pool, fl);
+    let tl = std::cmp::min(pool.len(), match rng.below(10) { 0 => 0, 1..=4 => rng.range(1, 3), 5..=7 => rng.range(4, 9), _ => rng.range(10, 18) });
+    let to = rng.sample(&pool, tl);
+    let repeat = if !p.norepeat { Repeat::Normal } else { match rng.below(6) {
+      0 | 1 => Repeat::Normal, 2 => Repeat::Disabled,
+      _ => { let kl = std::cmp::min(pool.len(), match rng.below(4) { 0 => 0, 1 => 1, 2 => rng.range(2, 5), _ => rng.range(6, 12) });
+             Repeat::Special { keys: rng.sample(&pool, kl), delay_ms: *rng.pick(&[0, 1, 50, 180, 1000]) + i as i32, interval_ms: *rng.pick(&[1, 7, 30, 500]) + i as i32 } }
+    } };
+    let absorbing = gen_absorbing(rng, p, &from);
+    mappings.push(Mapping { from, to, repeat, absorbing });
+  }
+  let markers = vec![None; mappings.len()];
+  (Layout { mappings }, markers)
+}
+
 pub fn valid_for_mapper(l: &Layout) -> bool {
   l.mappings.iter().all(|m| !m.from.is_empty() && !has_duplicate(&m.from) && !has_duplicate(&m.to))
 }
@@ -309,11 +375,12 @@ pub fn valid_for_mapper(l: &Layout) -> bool {
 // one generated case; `which` selects the generator mix
 pub fn gen_case(rng: &mut Rng, p: &GenParams) -> LayoutCase {
   loop {
-    let w = rng.below(10);
-    let (l, markers, src) = if w < 4 { let (l, m) = gen_a(rng, p); (l, m, "genA") }
-      else if w < 8 { let (l, m) = gen_b(rng, p); (l, m, "genB") }
-      else { let (l, m) = gen_c(rng, p); (l, m, "genC") };
+    let w = rng.below(20);
+    let (l, markers, src) = if w < 8 { let (l, m) = gen_a(rng, p); (l, m, "genA") }
+      else if w < 15 { let (l, m) = gen_b(rng, p); (l, m, "genB") }
+      else if w < 19 { let (l, m) = gen_c(rng, p); (l, m, "genC") }
+      else { let (l, m) = gen_d(rng, p); (l, m, "genD") };
     if !valid_for_mapper(&l) { continue; }
-    return make_case(l, src, markers, rng, 14);
+    return make_case(l, src, markers, rng, if src == "genD" { 26 } else { 14 });
   }
 }
